@@ -1,7 +1,210 @@
-// harness commands owned by property C11
+// harness commands owned by property C11 (compilation is a pure function of source tree and options)
 #![allow(unused_imports, dead_code)]
+use std::path::PathBuf;
+
 use serde_json::{json, Value};
 
-pub fn dispatch(_cmd: &str, _req: &Value) -> Option<Value> {
-    None
+use crate::{errs, guarded, options, s};
+
+fn err_text(e: &prqlc::ErrorMessages) -> Value {
+    // everything a caller can read from an error: kind, code, reason, hints, span, display, location
+    errs(prqlc::ErrorMessages { inner: e.inner.clone() })
+}
+
+// every observable output of one source under one option set: SQL, RQ JSON text, formatter text, errors
+fn outputs(req: &Value) -> Value {
+    let o = match options(req) {
+        Ok(o) => o,
+        Err(v) => return v,
+    };
+    let src = s(req, "src");
+    let mut out = serde_json::Map::new();
+    let sql = guarded(|| match prqlc::compile(src, &o) {
+        Ok(sql) => json!({ "ok": sql }),
+        Err(e) => err_text(&e),
+    });
+    out.insert("sql".into(), sql);
+    if req.get("only_sql").and_then(|v| v.as_bool()).unwrap_or(false) {
+        return Value::Object(out);
+    }
+    let rq = guarded(|| match prqlc::prql_to_pl(src).and_then(prqlc::pl_to_rq) {
+        Ok(rq) => match prqlc::json::from_rq(&rq) {
+            Ok(j) => json!({ "ok": j }),
+            Err(e) => err_text(&e),
+        },
+        Err(e) => err_text(&e),
+    });
+    out.insert("rq".into(), rq);
+    let fmt = guarded(|| match prqlc::prql_to_pl(src) {
+        Ok(pl) => match prqlc::pl_to_prql(&pl) {
+            Ok(t) => json!({ "ok": t }),
+            Err(e) => err_text(&e),
+        },
+        Err(_) => json!({"ok": null}),
+    });
+    out.insert("fmt".into(), fmt);
+    Value::Object(out)
+}
+
+// {req, n}: the same request n times in this process (every HashMap gets a fresh RandomState key each time)
+fn cmd_rep(req: &Value) -> Value {
+    let n = req.get("n").and_then(|v| v.as_u64()).unwrap_or(8) as usize;
+    let inner = req.get("req").cloned().unwrap_or(Value::Null);
+    let mut outs: Vec<Value> = vec![];
+    for _ in 0..n {
+        outs.push(outputs(&inner));
+    }
+    json!({ "outs": outs })
+}
+
+// {steps: [req..]}: a history inside one process; every step is guarded (panics are caught and reported)
+fn cmd_hist(req: &Value) -> Value {
+    let steps: Vec<Value> = req.get("steps").and_then(|v| v.as_array()).cloned().unwrap_or_default();
+    let mut outs = vec![];
+    for st in steps {
+        let kind = s(&st, "do").to_string();
+        let r = match kind.as_str() {
+            "log_start" => guarded(|| {
+                prqlc::debug::log_start();
+                json!({"ok": "log_start"})
+            }),
+            "log_finish" => guarded(|| {
+                let l = prqlc::debug::log_finish();
+                json!({"ok": if l.is_some() { "log_finish:some" } else { "log_finish:none" }})
+            }),
+            "set_env" => {
+                std::env::set_var(s(&st, "key"), s(&st, "value"));
+                json!({"ok": "set_env"})
+            }
+            "unset_env" => {
+                std::env::remove_var(s(&st, "key"));
+                json!({"ok": "unset_env"})
+            }
+            _ => outputs(&st),
+        };
+        outs.push(r);
+    }
+    json!({ "outs": outs })
+}
+
+// {n, m, reqs}: n threads at once; thread i runs reqs[i % len] m times; all outputs returned per thread
+fn cmd_par(req: &Value) -> Value {
+    let n = req.get("n").and_then(|v| v.as_u64()).unwrap_or(16) as usize;
+    let m = req.get("m").and_then(|v| v.as_u64()).unwrap_or(2) as usize;
+    let reqs: Vec<Value> = req.get("reqs").and_then(|v| v.as_array()).cloned().unwrap_or_default();
+    if reqs.is_empty() {
+        return json!({"bad_request": "no reqs"});
+    }
+    let with_log = req.get("with_log").and_then(|v| v.as_bool()).unwrap_or(false);
+    if with_log {
+        let _ = prqlc::debug::log_finish();
+        prqlc::debug::log_start();
+    }
+    let barrier = std::sync::Arc::new(std::sync::Barrier::new(n));
+    let mut handles = vec![];
+    for i in 0..n {
+        let r = reqs[i % reqs.len()].clone();
+        let b = barrier.clone();
+        handles.push(std::thread::spawn(move || {
+            b.wait();
+            let mut v = vec![];
+            for _ in 0..m {
+                v.push(outputs(&r));
+            }
+            v
+        }));
+    }
+    let outs: Vec<Value> = handles
+        .into_iter()
+        .map(|h| match h.join() {
+            Ok(v) => Value::Array(v),
+            Err(_) => json!([{"panic": {"msg": "thread join failed", "loc": ""}}]),
+        })
+        .collect();
+    if with_log {
+        let _ = prqlc::debug::log_finish();
+    }
+    json!({ "outs": outs })
+}
+
+// {files: [[path, content]..], main_path?: [..]}: a project inserted in the given order
+fn cmd_tree(req: &Value) -> Value {
+    let o = match options(req) {
+        Ok(o) => o,
+        Err(v) => return v,
+    };
+    let files: Vec<(PathBuf, String)> = req
+        .get("files")
+        .and_then(|v| v.as_array())
+        .map(|a| {
+            a.iter()
+                .filter_map(|p| {
+                    let p = p.as_array()?;
+                    Some((PathBuf::from(p.first()?.as_str()?), p.get(1)?.as_str()?.to_string()))
+                })
+                .collect()
+        })
+        .unwrap_or_default();
+    let use_insert = req.get("use_insert").and_then(|v| v.as_bool()).unwrap_or(false);
+    let tree = if use_insert {
+        let mut t = prqlc::SourceTree::default();
+        for (p, c) in files {
+            t.insert(p, c);
+        }
+        t
+    } else {
+        prqlc::SourceTree::new(files, None)
+    };
+    let main_path: Vec<String> = req
+        .get("main_path")
+        .and_then(|v| v.as_array())
+        .map(|a| a.iter().filter_map(|x| x.as_str().map(|s| s.to_string())).collect())
+        .unwrap_or_default();
+    let mut out = serde_json::Map::new();
+    let r = guarded(|| {
+        let pl = match prqlc::prql_to_pl_tree(&tree) {
+            Ok(pl) => pl,
+            Err(e) => return json!({"stage": "parse", "r": err_text(&e)}),
+        };
+        let rq = match prqlc::pl_to_rq_tree(pl, &main_path, &["default_db".to_string()]) {
+            Ok(rq) => rq,
+            Err(e) => {
+                let e = e.composed(&tree);
+                return json!({"stage": "resolve", "r": err_text(&e)});
+            }
+        };
+        let rqj = prqlc::json::from_rq(&rq).unwrap_or_default();
+        match prqlc::rq_to_sql(rq, &o) {
+            Ok(sql) => json!({"stage": "done", "r": {"ok": sql}, "rq": rqj}),
+            Err(e) => {
+                let e = e.composed(&tree);
+                json!({"stage": "sql", "r": err_text(&e), "rq": rqj})
+            }
+        }
+    });
+    out.insert("out".into(), r);
+    Value::Object(out)
+}
+
+// {src, ...}: compile with the debug log active and without; both results
+fn cmd_log(req: &Value) -> Value {
+    let plain = outputs(req);
+    let _ = prqlc::debug::log_finish();
+    prqlc::debug::log_start();
+    let logged = outputs(req);
+    let log = prqlc::debug::log_finish();
+    let after = outputs(req);
+    json!({"plain": plain, "logged": logged, "after": after, "log_entries": log.map(|l| serde_json::to_value(&l).ok().and_then(|v| v.get("entries").and_then(|e| e.as_array().map(|a| a.len()))).unwrap_or(0))})
+}
+
+pub fn dispatch(cmd: &str, req: &Value) -> Option<Value> {
+    match cmd {
+        "c11_out" => Some(outputs(req)),
+        "c11_rep" => Some(cmd_rep(req)),
+        "c11_hist" => Some(cmd_hist(req)),
+        "c11_par" => Some(cmd_par(req)),
+        "c11_tree" => Some(cmd_tree(req)),
+        "c11_log" => Some(cmd_log(req)),
+        _ => None,
+    }
 }
